@@ -1270,3 +1270,241 @@ Proof.
     as (tv' & Hva & _ & _ & _ & Hv & Hl).
   rewrite Hva. split; auto.
 Qed.
+
+(* ================================================================== ~ under EJECT / KEEP, exactly *)
+Lemma bit_length_opp n : bit_length (- n) = bit_length n.
+Proof. unfold bit_length. rewrite Z.abs_opp. destruct (n =? 0) eqn:E; [replace (- n =? 0) with true by lia|replace (- n =? 0) with false by lia]; reflexivity. Qed.
+
+Lemma flag_mask_nonneg E : Forall (fun m => 0 <= m) (fmembers E) -> 0 <= flag_mask E.
+Proof. intros. unfold flag_mask, lor_list. apply lor_list_nonneg_aux; auto; lia. Qed.
+
+Section FlagFacts.
+  Variable E : flagcls.
+  Hypothesis Hnn : Forall (fun m => 0 <= m) (fmembers E).
+  Let fm := flag_mask E.
+  Let k := bit_length fm.
+  Let ab := all_bits E.
+  Let h := Z.lxor ab fm.
+
+  Lemma ff_k : 0 <= k. Proof. apply bit_length_nonneg. Qed.
+  Lemma ff_ab : ab = 2 ^ k - 1. Proof. reflexivity. Qed.
+  Lemma ff_fm : 0 <= fm <= ab.
+  Proof. pose proof (flag_mask_nonneg E Hnn). pose proof (bit_length_upper fm H). fold k in H0. rewrite ff_ab. unfold fm. lia. Qed.
+  Lemma ff_pow : 0 < 2 ^ k. Proof. apply pow2_pos. apply ff_k. Qed.
+
+  Lemma ff_ab_bits i : 0 <= i -> Z.testbit ab i = (i <? k).
+  Proof.
+    intros. rewrite ff_ab. replace (2 ^ k - 1) with (Z.ones k) by (rewrite Z.ones_equiv; lia).
+    apply Z.testbit_ones_nonneg; auto. apply ff_k.
+  Qed.
+
+  Lemma ff_h : 0 <= h < 2 ^ k.
+  Proof.
+    apply range_of_bits; [apply ff_k|]. intros i Hi. unfold h. rewrite Z.lxor_spec, ff_ab_bits by (pose proof ff_k; lia).
+    replace (i <? k) with false by lia. pose proof ff_fm. pose proof ff_pow.
+    rewrite (bits_of_range k fm i); auto; [apply ff_k|rewrite ff_ab in H; lia].
+  Qed.
+
+  Lemma land_low_eq a b m : 0 <= m < 2 ^ k -> a mod 2 ^ k = b mod 2 ^ k -> Z.land a m = Z.land b m.
+  Proof.
+    intros Hm Hab. pose proof ff_k. apply Z.bits_inj'; intros i Hi. rewrite !Z.land_spec.
+    destruct (Z_lt_le_dec i k).
+    - rewrite <- (Z.mod_pow2_bits_low a k i), <- (Z.mod_pow2_bits_low b k i) by lia. rewrite Hab. reflexivity.
+    - rewrite (bits_of_range k m i) by (auto; lia). rewrite !andb_false_r. reflexivity.
+  Qed.
+
+  Lemma ff_unknown0 v : 0 <= v <= ab -> Z.land v h = 0 -> Z.land v (Z.lnot fm) = 0.
+  Proof.
+    intros Hv Hh. pose proof ff_k. pose proof ff_pow. apply Z.bits_inj'; intros i Hi.
+    rewrite Z.land_spec, Z.lnot_spec, Z.bits_0 by auto.
+    destruct (Z_lt_le_dec i k).
+    - assert (Z.testbit (Z.land v h) i = false) as Hb by (rewrite Hh; apply Z.bits_0).
+      rewrite Z.land_spec in Hb. unfold h in Hb. rewrite Z.lxor_spec, ff_ab_bits in Hb by auto.
+      replace (i <? k) with true in Hb by lia. simpl in Hb. exact Hb.
+    - rewrite (bits_of_range k v i) by (auto; rewrite ff_ab in Hv; lia). reflexivity.
+  Qed.
+
+  (* cls(v) under EJECT / KEEP, in closed form *)
+  Lemma new_ek v : fbound E = EJECT \/ fbound E = KEEP ->
+    py_flag_new E v =
+    if memz v (fmembers E) then FMem v
+    else if flag_bad E v then
+           match fbound E with
+           | EJECT => FInt v
+           | _ => let v1 := if v <? 0 then Z.max (ab + 1) (2 ^ bit_length v) + v else v in
+                  FMem (if v1 <? 0 then ab + 1 + v1 else v1)
+           end
+         else let v2 := if v <? 0 then ab + 1 + v else v in
+              if (match fbound E with EJECT => true | _ => false end) && negb (Z.land v2 (Z.lnot fm) =? 0)
+              then FErr else FMem v2.
+  Proof.
+    intros Hb. unfold py_flag_new, flag_bad. fold fm ab. cbv zeta.
+    destruct (memz v (fmembers E)); [reflexivity|].
+    destruct (negb ((Z.lnot ab <=? v) && (v <=? ab)) || negb (Z.land v (Z.lxor ab fm) =? 0)) eqn:Ebad.
+    - destruct Hb as [-> | ->]; [reflexivity|]. simpl.
+      rewrite ?andb_false_r, ?andb_true_r.
+      repeat match goal with |- context [if ?c then _ else _] => destruct c eqn:? end; reflexivity.
+    - destruct Hb as [-> | ->]; simpl; rewrite ?andb_false_r, ?andb_true_r;
+      repeat match goal with |- context [if ?c then _ else _] => destruct c eqn:? end;
+      try reflexivity; try discriminate; exfalso; lia.
+  Qed.
+End FlagFacts.
+
+Section Invert.
+  Variable E : flagcls.
+  Hypothesis Hnn : Forall (fun m => 0 <= m) (fmembers E).
+  Hypothesis Hw : 0 <= fwidth E.
+  Let w := fwidth E.
+  Let fm := flag_mask E.
+  Let k := bit_length fm.
+  Let ab := all_bits E.
+  Let h := Z.lxor ab fm.
+
+  Lemma neg_not_member v : v < 0 -> memz v (fmembers E) = false.
+  Proof.
+    intros Hv. destruct (memz v (fmembers E)) eqn:Em; [|reflexivity]. apply memz_in in Em.
+    rewrite Forall_forall in Hnn. specialize (Hnn _ Em). lia.
+  Qed.
+
+  Lemma fv_not_raw_ek x : fbound E = EJECT \/ fbound E = KEEP -> 0 <= x < 2 ^ w ->
+    fv_not E x = Some (py_flag_new E (2 ^ w - 1 - x)).
+  Proof.
+    intros Hb Hx. unfold fv_not, fv_not_raw. fold w.
+    assert (mask w (Z.lnot x) = 2 ^ w - 1 - x) as Hm.
+    { unfold mask, Z.lnot. replace (Z.pred (- x)) with (2 ^ w - 1 - x + (-1) * 2 ^ w) by lia.
+      rewrite Z.mod_add by lia. apply Z.mod_small. lia. }
+    destruct Hb as [Hb | Hb]; rewrite Hb, Hm; reflexivity.
+  Qed.
+
+  Lemma py_not_ek x : fbound E = EJECT \/ fbound E = KEEP -> py_flag_not E x = py_flag_new E (Z.lnot x).
+  Proof. intros [Hb | Hb]; unfold py_flag_not; rewrite Hb; reflexivity. Qed.
+
+  (* cls(r) for r >= 0 under KEEP *)
+  Lemma new_keep_nonneg r : fbound E = KEEP -> 0 <= r -> py_flag_new E r = FMem r.
+  Proof.
+    intros Hb Hr. rewrite (new_ek E r (or_intror Hb)). rewrite Hb. cbv zeta.
+    replace (r <? 0) with false by lia. simpl andb.
+    destruct (memz r (fmembers E)); [reflexivity|]. destruct (flag_bad E r); [|reflexivity].
+    replace (r <? 0) with false by lia. reflexivity.
+  Qed.
+
+  (* Python's ~F(0) under KEEP is always the member with every bit up to all_bits *)
+  Lemma py_not_keep_0 : fbound E = KEEP -> py_flag_not E 0 = FMem ab.
+  Proof.
+    intros Hb. rewrite (py_not_ek 0 (or_intror Hb)). change (Z.lnot 0) with (-1).
+    rewrite (new_ek E (-1) (or_intror Hb)). rewrite (neg_not_member (-1)) by lia. rewrite Hb. cbv zeta.
+    fold ab. pose proof (ff_pow E) as Hp. pose proof (ff_ab E) as Hab. fold ab in Hab. fold fm k in Hp, Hab.
+    change (-1 <? 0) with true. cbv iota.
+    destruct (flag_bad E (-1)) eqn:Ebad.
+    - change (bit_length (-1)) with 1. change (2 ^ 1) with 2.
+      assert (2 <= ab + 1) as H2.
+      { unfold flag_bad in Ebad. fold ab fm in Ebad. rewrite Z.land_m1_l in Ebad.
+        replace ((Z.lnot ab <=? -1) && (-1 <=? ab)) with true in Ebad by (unfold Z.lnot; lia). simpl in Ebad.
+        destruct (Z.eq_dec k 0) as [E0|E0]; [|pose proof (pow2_mono 1 k ltac:(pose proof (ff_k E); fold fm k in H; lia)); change (2 ^ 1) with 2 in *; lia].
+        exfalso. pose proof (ff_h E Hnn) as Hh. fold fm k ab in Hh. rewrite E0 in Hh. simpl in Hh.
+        assert (Z.lxor ab fm = 0) by lia. rewrite H in Ebad. discriminate. }
+      rewrite Z.max_l by lia. replace (ab + 1 + -1 <? 0) with false by lia. f_equal. lia.
+    - simpl andb. cbv iota. f_equal. lia.
+  Qed.
+
+  (* KEEP: ~view agrees with Python for every value iff the shape is exactly as wide as the members' bits *)
+  Lemma flag_not_keep_iff : fbound E = KEEP ->
+    (ab + 1 = 2 ^ w -> forall x, 0 <= x < 2 ^ w ->
+        fv_not E x = Some (py_flag_not E x) /\ py_flag_not E x = FMem (2 ^ w - 1 - x)) /\
+    (ab + 1 <> 2 ^ w -> fv_not E 0 = Some (FMem (2 ^ w - 1)) /\ py_flag_not E 0 = FMem ab /\
+                        fv_not E 0 <> Some (py_flag_not E 0)).
+  Proof.
+    intros Hb. pose proof (pow2_pos w Hw) as Hpw. split.
+    - intros Hab x Hx. rewrite (fv_not_raw_ek x (or_intror Hb) Hx). rewrite new_keep_nonneg by (auto; lia).
+      enough (py_flag_not E x = FMem (2 ^ w - 1 - x)) as -> by auto.
+      rewrite (py_not_ek x (or_intror Hb)). set (v := Z.lnot x). assert (v = - x - 1) as Hv by (unfold v, Z.lnot; lia).
+      rewrite (new_ek E v (or_intror Hb)). rewrite (neg_not_member v) by lia. rewrite Hb. cbv zeta. fold ab.
+      replace (v <? 0) with true by lia. simpl andb. cbv iota.
+      pose proof (ff_ab E) as Hk. fold ab fm k in Hk. pose proof (ff_k E) as Hk0. fold fm k in Hk0.
+      destruct (flag_bad E v) eqn:Ebad.
+      + (* a hole bit is set in ~x: then x + 1 < 2^k *)
+        assert (x + 1 < 2 ^ k) as Hlt.
+        { destruct (Z_lt_le_dec (x + 1) (2 ^ k)); auto. exfalso.
+          assert (v = - 2 ^ k) by lia. unfold flag_bad in Ebad. fold ab fm in Ebad.
+          replace ((Z.lnot ab <=? v) && (v <=? ab)) with true in Ebad by (unfold Z.lnot; lia). simpl in Ebad.
+          rewrite (land_low_eq E v 0 (Z.lxor ab fm)) in Ebad.
+          - rewrite Z.land_0_l in Ebad. discriminate.
+          - apply (ff_h E Hnn).
+          - fold fm k. rewrite H. replace (- 2 ^ k) with (0 + (-1) * 2 ^ k) by lia. rewrite Z.mod_add by lia. reflexivity. }
+        assert (bit_length v <= k) as Hbl.
+        { replace v with (- (x + 1)) by lia. rewrite bit_length_opp. apply bit_length_min; lia. }
+        pose proof (pow2_mono (bit_length v) k ltac:(pose proof (bit_length_nonneg v); lia)).
+        rewrite Z.max_l by lia. replace (ab + 1 + v <? 0) with false by lia. f_equal. lia.
+      + f_equal. lia.
+    - intros Hab. rewrite (fv_not_raw_ek 0 (or_intror Hb)) by lia. rewrite new_keep_nonneg by (auto; lia).
+      rewrite (py_not_keep_0 Hb). replace (2 ^ w - 1 - 0) with (2 ^ w - 1) by lia.
+      split; [reflexivity|]. split; [reflexivity|]. intros H; inversion H. lia.
+  Qed.
+
+  (* cls(r) for r >= 0 under EJECT is the member or the ejected int with the same value *)
+  Lemma new_eject_nonneg r : fbound E = EJECT -> 0 <= r ->
+    (py_flag_new E r = FMem r \/ py_flag_new E r = FInt r) /\
+    (r <= ab -> Z.land r h = 0 -> py_flag_new E r = FMem r).
+  Proof.
+    intros Hb Hr. rewrite (new_ek E r (or_introl Hb)). rewrite Hb. cbv zeta.
+    replace (r <? 0) with false by lia. fold ab fm.
+    destruct (memz r (fmembers E)); [auto|].
+    destruct (flag_bad E r) eqn:Ebad.
+    - split; [auto|]. intros Hle Hh. exfalso. unfold flag_bad in Ebad. fold ab fm h in Ebad. rewrite Hh in Ebad.
+      replace ((Z.lnot ab <=? r) && (r <=? ab)) with true in Ebad by (unfold Z.lnot; lia). discriminate.
+    - assert (Z.land r (Z.lnot fm) = 0) as ->.
+      { unfold flag_bad in Ebad. fold ab fm h in Ebad. apply (ff_unknown0 E); fold ab fm h; [|lia]. unfold Z.lnot in Ebad. lia. }
+      simpl. auto.
+  Qed.
+
+  (* EJECT: for every value, ~view agrees with Python iff the shape is exactly as wide as the members' bits and
+     ~x sets no bit that is not a flag *)
+  Lemma flag_not_eject_iff x : fbound E = EJECT -> 0 <= x < 2 ^ w ->
+    (fv_not E x = Some (py_flag_not E x) <-> (ab + 1 = 2 ^ w /\ Z.land (Z.lnot x) h = 0)).
+  Proof.
+    intros Hb Hx. pose proof (pow2_pos w Hw) as Hpw.
+    rewrite (fv_not_raw_ek x (or_introl Hb) Hx). rewrite (py_not_ek x (or_introl Hb)).
+    set (v := Z.lnot x). assert (v = - x - 1) as Hv by (unfold v, Z.lnot; lia).
+    set (r := 2 ^ w - 1 - x). assert (0 <= r) as Hr by (unfold r; lia).
+    pose proof (ff_ab E) as Hk. fold ab fm k in Hk. pose proof (ff_k E) as Hk0. fold fm k in Hk0.
+    pose proof (ff_pow E) as Hpk. fold fm k in Hpk.
+    assert (Hpy : py_flag_new E v = if flag_bad E v then FInt v else FMem (ab - x)).
+    { rewrite (new_ek E v (or_introl Hb)). rewrite (neg_not_member v) by lia. rewrite Hb. cbv zeta. fold ab fm.
+      replace (v <? 0) with true by lia. destruct (flag_bad E v) eqn:Ebad; [reflexivity|].
+      unfold flag_bad in Ebad. fold ab fm h in Ebad.
+      assert (Z.land (ab + 1 + v) (Z.lnot fm) = 0) as ->.
+      { apply (ff_unknown0 E); fold ab fm h; [unfold Z.lnot in Ebad; lia|].
+        rewrite (land_low_eq E (ab + 1 + v) v h); [lia|apply (ff_h E Hnn)|].
+        fold fm k. replace (ab + 1 + v) with (v + 1 * 2 ^ k) by lia. apply Z.mod_add. lia. }
+      simpl. f_equal. lia. }
+    rewrite Hpy. destruct (new_eject_nonneg r Hb Hr) as [Hor Hok]. split.
+    - intros H. inversion H as [H1]. destruct (flag_bad E v) eqn:Ebad.
+      + exfalso. destruct Hor as [Ho | Ho]; rewrite Ho in H1; inversion H1. lia.
+      + unfold flag_bad in Ebad. fold ab fm h in Ebad.
+        destruct Hor as [Ho | Ho]; rewrite Ho in H1; inversion H1. unfold r in *. split; [lia|]. lia.
+    - intros [Hab Hh]. assert (flag_bad E v = false) as ->.
+      { unfold flag_bad. fold ab fm h. rewrite Hh. replace ((Z.lnot ab <=? v) && (v <=? ab)) with true by (unfold Z.lnot; lia). reflexivity. }
+      f_equal. replace (ab - x) with r by (unfold r; lia). apply Hok; [unfold r; lia|].
+      rewrite (land_low_eq E r v h); [exact Hh|apply (ff_h E Hnn)|].
+      fold fm k. replace r with (v + 1 * 2 ^ k) by (unfold r; lia). apply Z.mod_add. lia.
+  Qed.
+End Invert.
+
+(* STRICT / CONFORM: when the single-bit flags do not fit the shape the operator is refused (TypeError) *)
+Lemma flag_not_strict_refused E x : (fbound E = STRICT \/ fbound E = CONFORM) ->
+  fwidth E < bits_for (py_singles E) false -> fv_not E x = None.
+Proof.
+  intros Hb Hlt. unfold fv_not, fv_not_raw. rewrite am_singles_eq.
+  destruct Hb as [-> | ->]; replace (fwidth E <? bits_for (py_singles E) false) with true by lia; reflexivity.
+Qed.
+
+(* a shaped Flag class as an enumeration leaf: its member list is exactly the accepted, unchanged bit patterns *)
+Lemma flag_values_spec E v : 0 <= fwidth E -> 0 <= v < 2 ^ fwidth E ->
+  (memz v (flag_values E) = true <-> flag_from_bits E v = FMem v).
+Proof.
+  intros Hw Hv. rewrite memz_in. unfold flag_values, flag_from_bits. rewrite filter_In. split.
+  - intros [_ H]. destruct (py_flag_new E v) as [m| |]; try discriminate. f_equal. lia.
+  - intros H. split.
+    + apply in_map_iff. exists (Z.to_nat v). split; [lia|]. apply in_seq. lia.
+    + rewrite H. apply Z.eqb_refl.
+Qed.
